@@ -1,0 +1,243 @@
+//go:build verif
+
+package pipeline
+
+// Accessors for the external verification harness (build tag `verif`).
+// Nothing here is used by production code.
+
+import (
+	"sync"
+	"time"
+)
+
+// ---- finalize observer ----
+
+var (
+	verifFinalizeMu  sync.RWMutex
+	verifFinalizeObs func(p *Pipeline, e *Event, notifyInput, backEvent bool)
+)
+
+// VerifSetFinalizeObserver installs a callback invoked at the entry of
+// Pipeline.finalize (for every kind of event).
+func VerifSetFinalizeObserver(fn func(p *Pipeline, e *Event, notifyInput, backEvent bool)) {
+	verifFinalizeMu.Lock()
+	verifFinalizeObs = fn
+	verifFinalizeMu.Unlock()
+}
+
+func verifFinalize(p *Pipeline, e *Event, notifyInput, backEvent bool) {
+	verifFinalizeMu.RLock()
+	fn := verifFinalizeObs
+	verifFinalizeMu.RUnlock()
+	if fn != nil {
+		fn(p, e, notifyInput, backEvent)
+	}
+}
+
+// ---- event pools ----
+
+// VerifPool is a standalone event pool of either kind.
+type VerifPool struct{ p pool }
+
+// VerifNewPool builds a pool: kind "std" or "low_memory".
+func VerifNewPool(kind string, capacity, avgEventSize int) *VerifPool {
+	if kind == "std" {
+		return &VerifPool{p: newEventPool(capacity, avgEventSize)}
+	}
+	return &VerifPool{p: newLowMemoryEventPool(capacity)}
+}
+
+func (v *VerifPool) Get(size int) *Event { return v.p.get(size) }
+func (v *VerifPool) Back(e *Event)       { v.p.back(e) }
+func (v *VerifPool) InUse() int64        { return v.p.inUse() }
+func (v *VerifPool) Waiters() int64      { return v.p.waiters() }
+func (v *VerifPool) Stop()               { v.p.stop() }
+
+// RawInUse returns the unclamped in-use counter.
+func (v *VerifPool) RawInUse() int64 { return verifRawInUse(v.p) }
+
+func verifRawInUse(p pool) int64 {
+	switch x := p.(type) {
+	case *eventPool:
+		return x.inUseEvents.Load()
+	case *lowMemoryEventPool:
+		return x.inUseEvents.Load()
+	case *verifMonPool:
+		return verifRawInUse(x.inner)
+	}
+	return -1
+}
+
+func verifSetWakeup(p pool, d time.Duration) {
+	switch x := p.(type) {
+	case *eventPool:
+		x.wakeupInterval = d
+	case *lowMemoryEventPool:
+		x.wakeupInterval = d
+	case *verifMonPool:
+		verifSetWakeup(x.inner, d)
+	}
+}
+
+// SetWakeupInterval sets the heartbeat period (call before first use).
+func (v *VerifPool) SetWakeupInterval(d time.Duration) { verifSetWakeup(v.p, d) }
+
+// verifMonPool wraps the pipeline's pool and reports get returns / back calls.
+type verifMonPool struct {
+	inner   pool
+	onGet   func(e *Event, size int)
+	onBack  func(e *Event)
+	preGet  func(size int)
+	postBck func(e *Event)
+}
+
+func (m *verifMonPool) get(size int) *Event {
+	if m.preGet != nil {
+		m.preGet(size)
+	}
+	e := m.inner.get(size)
+	if m.onGet != nil {
+		m.onGet(e, size)
+	}
+	return e
+}
+
+func (m *verifMonPool) back(e *Event) {
+	if m.onBack != nil {
+		m.onBack(e)
+	}
+	m.inner.back(e)
+	if m.postBck != nil {
+		m.postBck(e)
+	}
+}
+func (m *verifMonPool) dump() string   { return m.inner.dump() }
+func (m *verifMonPool) inUse() int64   { return m.inner.inUse() }
+func (m *verifMonPool) stop()          { m.inner.stop() }
+func (m *verifMonPool) waiters() int64 { return m.inner.waiters() }
+
+// VerifPoolObserver receives pool traffic of a pipeline. OnGet is called
+// after the real get returned, OnBack before the real back is called, so a
+// counter kept by the observer is a lower bound of the true in-flight number.
+type VerifPoolObserver struct {
+	PreGet   func(size int)
+	OnGet    func(e *Event, size int)
+	OnBack   func(e *Event)
+	PostBack func(e *Event)
+}
+
+// VerifWrapPool installs the observer (call before Start).
+func (p *Pipeline) VerifWrapPool(o VerifPoolObserver) {
+	p.eventPool = &verifMonPool{inner: p.eventPool, onGet: o.OnGet, onBack: o.OnBack, preGet: o.PreGet, postBck: o.PostBack}
+}
+
+func (p *Pipeline) VerifPoolInUse() int64    { return p.eventPool.inUse() }
+func (p *Pipeline) VerifPoolRawInUse() int64 { return verifRawInUse(p.eventPool) }
+func (p *Pipeline) VerifPoolWaiters() int64  { return p.eventPool.waiters() }
+func (p *Pipeline) VerifSetPoolWakeup(d time.Duration) {
+	verifSetWakeup(p.eventPool, d)
+}
+func (p *Pipeline) VerifProcCount() int   { return int(p.procCount.Load()) }
+func (p *Pipeline) VerifActiveProcs() int { return int(p.activeProcs.Load()) }
+
+// ---- events ----
+
+// VerifEventInfo exposes unexported event fields.
+type VerifEventInfo struct {
+	Kind       string
+	StreamName string
+	Stage      string
+	Action     int
+	HasStream  bool
+}
+
+func VerifInfo(e *Event) VerifEventInfo {
+	return VerifEventInfo{Kind: e.kind.String(), StreamName: string(e.streamName), Stage: e.stageStr(), Action: e.action, HasStream: e.stream != nil}
+}
+
+// VerifNewEvent builds a standalone event of kind "regular", "child",
+// "parent" or "timeout" (for driving a Batcher directly).
+func VerifNewEvent(kind string, size int) *Event {
+	e := newEvent()
+	e.Size = size
+	switch kind {
+	case "child":
+		e.SetChildKind()
+	case "parent":
+		e.SetChildParentKind()
+	case "timeout":
+		e.SetTimeoutKind()
+	}
+	return e
+}
+
+func VerifSetStreamName(e *Event, name string) { e.streamName = StreamName(name) }
+
+// VerifOffsetsCurrent returns Offsets.current.
+func VerifOffsetsCurrent(o Offsets) int64 { return o.current }
+
+// VerifBatchEvents returns all events of a batch, including child-parent ones.
+func VerifBatchEvents(b *Batch) []*Event { return b.events }
+
+// VerifBatchInfo returns (seq, eventsSize, status).
+func VerifBatchInfo(b *Batch) (int64, int, BatchStatus) { return b.seq, b.eventsSize, b.status }
+
+// ---- streamer state ----
+
+type VerifStreamState struct {
+	SourceID    uint64
+	Name        string
+	Len         int
+	HasFirst    bool
+	Attached    bool
+	Detaching   bool
+	AwaySeq     uint64
+	CommitSeq   uint64
+	CurrentSeq  uint64
+	InCharged   bool
+	InBlocked   bool
+	FirstIsTime bool
+}
+
+// VerifStreamerState returns a consistent-per-stream snapshot of the streamer.
+func (p *Pipeline) VerifStreamerState() []VerifStreamState {
+	s := p.streamer
+	var all []*stream
+	s.mu.RLock()
+	for _, m := range s.streams {
+		for _, st := range m {
+			all = append(all, st)
+		}
+	}
+	s.mu.RUnlock()
+
+	s.chargedMu.Lock()
+	charged := make(map[*stream]bool, len(s.charged))
+	for _, st := range s.charged {
+		charged[st] = true
+	}
+	s.chargedMu.Unlock()
+	s.blockedMu.Lock()
+	blocked := make(map[*stream]bool, len(s.blocked))
+	for _, st := range s.blocked {
+		blocked[st] = true
+	}
+	s.blockedMu.Unlock()
+
+	out := make([]VerifStreamState, 0, len(all))
+	for _, st := range all {
+		st.mu.Lock()
+		out = append(out, VerifStreamState{
+			SourceID: uint64(st.streamID), Name: string(st.name), Len: st.len,
+			HasFirst: st.first != nil, Attached: st.isAttached, Detaching: st.isDetaching,
+			AwaySeq: st.awaySeq, CommitSeq: st.commitSeq.Load(), CurrentSeq: st.currentSeq,
+			InCharged: charged[st], InBlocked: blocked[st],
+			FirstIsTime: st.first != nil && st.first.IsTimeoutKind(),
+		})
+		st.mu.Unlock()
+	}
+	return out
+}
+
+// VerifDump returns the textual streamer and pool dump.
+func (p *Pipeline) VerifDump() string { return p.streamer.dump() + p.eventPool.dump() }
